@@ -263,6 +263,33 @@ def run(ctx):
                 if unit and in_infos_loop:
                     ok = True
                     detail = 'counter `%s` starts at 0 and advances by %s inside the walk over the infoset table' % (f.local_name(l) or '_%d' % l, facts.show(s)[:30])
+        if not ok:
+            # the same walk written with a closure: infos.iter().map(|info| { let start = n; n += info.num_actions(); start })
+            for cf in lib.closures_of(f):
+                parent, agg = q.parent_agg(lib, cf)
+                if agg is None or parent is not f:
+                    continue
+                for bi, st, pl, rhs in q.stores(cf):
+                    tgt = strip_refs(pl)
+                    r = strip_refs(rhs)
+                    if tgt[0] != 'upvar' or not (r[0] == 'bin' and r[1] == 'Add' and strip_refs(r[2]) == tgt):
+                        continue
+                    step = strip_refs(r[3])
+                    unit = is_const(step, 1) or q.is_call(step, 'num_actions')
+                    cap = strip_refs(agg[2][tgt[1]]) if tgt[1] < len(agg[2]) else None
+                    init0 = cap is not None and cap[0] == 'var' and any(d[0] == 'assign' and d[1] not in () and is_const(f.rvalue_expr(d[3], d[1]), 0) for d in f.defs.get(cap[1], []))
+                    # the closure is mapped over an iteration of the infoset table (parameter 2)
+                    over = False
+                    for bj, t, p in f.calls():
+                        if short(p) == 'map':
+                            e = f.call_expr(t, bj)
+                            c2, _ = q.closure_of(lib, e[2][1]) if len(e[2]) > 1 else (None, None)
+                            if c2 is cf and q.find_sub(e[2][0], lambda x: x[0] == 'param' and x[1] == 2) is not None:
+                                over = True
+                    if unit and init0 and over:
+                        ok = True
+                        ctx.touch(cf)
+                        detail = 'counter captured by the closure mapped over the infoset table starts at 0 and advances by %s' % facts.show(step)[:30]
         ctx.verdict(ok, rule, '%s:%s:running-counter' % (rule, nm), 'dense indices are allocated by one walk over the infoset table in order, with a counter that starts at 0 and advances by one per action (or num_actions per infoset)', f.where(0), detail,
                     breaks='import and export disagree on the layout of the dense vector')
     # ---------------- player wiring of the public entry points
